@@ -1,9 +1,133 @@
 import WzVerif.Driver.Proto
+import WzVerif.Model.Local
 namespace Wz.Driver.C18
-open Wz Wz.Proto
+open Wz Wz.Proto Wz.Local
 
-/-- stub: no model commands yet -/
+/-
+`trace <op> <op> ...` replays an interleaving on the heap model and prints, after every step, the
+step's result and what every context observes. Ops are comma separated:
+  set,c,v,k,b   get,c,v,k   del,c,v,k   iter,c,v   push,c,v,b   pop,c,v   top,c,v   rel,c,v
+  spawn,p   fresh   pnew,c,attr,v,k | pnew,c,top,v   pget,c,i   pmut,c,i,f
+Vars: 0 and 2 are `Local`s, 1 is a `LocalStack`. Values are box ids; a box has one mutable field
+(driver-level state: the model's values are opaque tokens).
+-/
+
+structure St where
+  w : World := World.init
+  fields : List (Nat × Nat) := []
+  proxies : Array Proxy := #[]
+
+def field (st : St) (b : Nat) : Nat := ((st.fields.find? fun p => p.1 == b).map (·.2)).getD 0
+
+def box (st : St) (b : Nat) : String := s!"{b}:{field st b}"
+
+def items (st : St) (kv : List (Nat × Nat)) : String :=
+  if kv.isEmpty then "-" else ",".intercalate (kv.map fun (k, b) => s!"{k}={box st b}")
+
+def boxes (st : St) (xs : List Nat) : String :=
+  if xs.isEmpty then "-" else "+".intercalate (xs.map (box st))
+
+def res (st : St) : Res → String
+  | .none => "None"
+  | .val b => box st b
+  | .items kv => items st kv
+  | .list xs => boxes st xs
+  | .attrError => "AttributeError"
+  | .stuck => "STUCK"
+
+def isStack (v : Nat) : Bool := v == 1
+
+def call (st : St) (c v : Nat) (p : Prog) (a : Args) : St × String :=
+  let r := (runProg st.w c v a p).2
+  ({ st with w := stepEvent st.w (.call c v p a) }, res st r)
+
+def obsCtx (st : St) (c : Nat) : String :=
+  let l0 := (call st c 0 Gen.LocalOps.localIter {}).2
+  let l2 := (call st c 2 Gen.LocalOps.localIter {}).2
+  let s1 := (call st c 1 Gen.LocalOps.stackTop {}).2
+  s!"L{l0}M{l2}S{s1}"
+
+def obsAll (st : St) : String := "/".intercalate ((List.range st.w.nctx).map (obsCtx st))
+
+def step (st : St) (op : List String) : Option (St × String) :=
+  match op with
+  | ["set", c, v, k, b] => do
+    let c ← c.toNat?; let v ← v.toNat?; let k ← k.toNat?; let b ← b.toNat?
+    let (st, _) := call st c v Gen.LocalOps.localSetattr { key := k, val := b }
+    pure (st, "ok")
+  | ["get", c, v, k] => do
+    let c ← c.toNat?; let v ← v.toNat?; let k ← k.toNat?
+    pure (call st c v Gen.LocalOps.localGetattr { key := k })
+  | ["del", c, v, k] => do
+    let c ← c.toNat?; let v ← v.toNat?; let k ← k.toNat?
+    let (st, r) := call st c v Gen.LocalOps.localDelattr { key := k }
+    pure (st, if r == "None" then "ok" else r)
+  | ["iter", c, v] => do
+    let c ← c.toNat?; let v ← v.toNat?
+    pure (call st c v Gen.LocalOps.localIter {})
+  | ["push", c, v, b] => do
+    let c ← c.toNat?; let v ← v.toNat?; let b ← b.toNat?
+    pure (call st c v Gen.LocalOps.stackPush { val := b })
+  | ["pop", c, v] => do
+    let c ← c.toNat?; let v ← v.toNat?
+    pure (call st c v Gen.LocalOps.stackPop {})
+  | ["top", c, v] => do
+    let c ← c.toNat?; let v ← v.toNat?
+    pure (call st c v Gen.LocalOps.stackTop {})
+  | ["rel", c, v] => do
+    let c ← c.toNat?; let v ← v.toNat?
+    let (st, _) := call st c v (if isStack v then Gen.LocalOps.stackRelease else Gen.LocalOps.localRelease) {}
+    pure (st, "ok")
+  | ["spawn", p] => do
+    let p ← p.toNat?
+    pure ({ st with w := stepEvent st.w (.copyCtx p) }, s!"ctx{st.w.nctx}")
+  | ["fresh"] => pure ({ st with w := stepEvent st.w .freshCtx }, s!"ctx{st.w.nctx}")
+  | ["pnew", _, "attr", v, k] => do
+    let v ← v.toNat?; let k ← k.toNat?
+    pure ({ st with proxies := st.proxies.push (.attr v k) }, s!"p{st.proxies.size}")
+  | ["pnew", _, "top", v] => do
+    let v ← v.toNat?
+    pure ({ st with proxies := st.proxies.push (.top v) }, s!"p{st.proxies.size}")
+  | ["pget", c, i] => do
+    let c ← c.toNat?; let i ← i.toNat?
+    let p ← st.proxies[i]?
+    let pv := proxyView st.w c p
+    let o := match pv.obj with | some b => box st b | none => "RuntimeError"
+    pure (st, s!"{o},{if pv.truthy then "True" else "False"},{if pv.fallbackRepr then "unbound" else "Box"}")
+  | ["pmut", c, i, f] => do
+    let c ← c.toNat?; let i ← i.toNat?; let f ← f.toNat?
+    let p ← st.proxies[i]?
+    match resolve st.w c p with
+    | some b => pure ({ st with fields := (b, f) :: st.fields }, "ok")
+    | none => pure (st, "RuntimeError")
+  | _ => none
+
+def drainCtx (st : St) (c : Nat) : Nat → St → List String → St × List String
+  | 0, s, acc => (s, acc.reverse)
+  | fuel + 1, s, acc =>
+    let (s', r) := call s c 1 Gen.LocalOps.stackPop {}
+    if r == "None" then (s', acc.reverse) else drainCtx st c fuel s' (r :: acc)
+
+def trace (ops : List String) : String := Id.run do
+  let mut st : St := {}
+  let mut out : Array String := #[]
+  for o in ops do
+    match step st (o.splitOn ",") with
+    | some (st', r) =>
+      st := st'
+      out := out.push (r ++ "|" ++ obsAll st)
+    | none => return "BAD-OP " ++ o
+  -- finally pop every stack empty, context by context
+  let mut drains : Array String := #[]
+  for c in List.range st.w.nctx do
+    let (st', ds) := drainCtx st c 64 st []
+    st := st'
+    drains := drains.push (if ds.isEmpty then "-" else "+".intercalate ds)
+  out := out.push ("drain|" ++ "/".intercalate drains.toList)
+  return ";".intercalate out.toList
+
 def handle : Handler
+  | "trace", ops => some (trace ops)
   | _, _ => none
 
 end Wz.Driver.C18
